@@ -151,6 +151,8 @@ def judge_line_only(ans):
     d = httpgen.parse_answer(ans)
     if d.get('viol', '-') != '-':
         return ('monitor:' + d['viol'].split(',')[0], ans[:300])
+    if d.get('ncb') != '1' or d.get('pending') != '0' or d.get('resp') != '1':
+        return ('oracle:decode:replay', 'callback count %s pending %s response %s' % (d.get('ncb'), d.get('pending'), d.get('resp')))
     if d.get('leak', '0') != '0':
         return ('leak', ans[:300])
     print('replay answer: ' + ans[:600])
